@@ -59,7 +59,7 @@ pub struct Loaded {
     pub code: String,
 }
 pub fn compile_case(program: &str, out: &mut Outcome, ctx: &mut Ctx, prop: &str) -> Option<String> {
-    let c = match ctx.compiler.compile(&Project::single(program), 20) {
+    let c = match ctx.compiler.compile(&Project::single(program), if ctx.shrinking { 3 } else { 20 }) {
         Ok(c) => c,
         Err(CompileFail::Crashed(st)) => {
             out.mismatch(ctx, "compile_crash", format!("compiler process died ({}) on a supported program", st), json!({"program": program}));
@@ -103,14 +103,16 @@ pub fn compile_case(program: &str, out: &mut Outcome, ctx: &mut Ctx, prop: &str)
 }
 
 pub fn panic_site(p: &str) -> String {
-    // "<msg> @ <file>:<line>" -> file:line (stable across messages with embedded data)
+    // "<msg> @ <file>:<line>" -> "<msg prefix>@<file>" (line numbers move with unrelated edits)
     match p.rfind(" @ ") {
         Some(i) => {
+            let msg: String = p[..i].chars().take(70).collect();
             let loc = &p[i + 3..];
             let short = loc.rsplit("packages/").next().unwrap_or(loc);
-            short.to_string()
+            let file = short.rsplit_once(':').map(|(f, _)| f).unwrap_or(short);
+            format!("{}@{}", msg, file)
         }
-        None => p.chars().take(60).collect(),
+        None => p.chars().take(70).collect(),
     }
 }
 pub fn diag_class(m: &str) -> String {
